@@ -35,7 +35,10 @@ pvars == <<objs, last, tc>>
 
 Nodes == 1..NumNodes
 KeyModes == {"explicit", "meta", "path"}    \* explicit signing key / metadata-derived / blinded-path-derived
-AlterClasses == {"field", "commit"}         \* a committed field / the commitment itself (metadata, derived key)
+\* what an alteration changes: a committed field (re-encoded) / the commitment itself (metadata,
+\* derived key replaced) / one single bit of one TLV record of the byte stream (any record: keys and
+\* their parity byte, paths, amounts, strings, metadata...)
+AlterClasses == {"field", "commit", "bit"}
 
 -----------------------------------------------------------------------------
 (* Symbolic terms *)
@@ -126,10 +129,10 @@ Alter(s, cls) ==
      objs' = Append(objs,
        IF o.kind = "offer"
        THEN [o EXCEPT !.by = 0, !.src = s, !.otamp = TRUE,
-                      !.ofl = IF cls = "field" THEN <<o.root, "alt">> ELSE @,
+                      !.ofl = IF cls \in {"field", "bit"} THEN <<o.root, cls>> ELSE @,
                       !.ocm = IF cls = "commit" THEN Junk(@) ELSE @]
        ELSE [o EXCEPT !.by = 0, !.src = s, !.ptamp = TRUE,
-                      !.rfl = IF cls = "field" THEN <<o.root, "alt">> ELSE @,
+                      !.rfl = IF cls \in {"field", "bit"} THEN <<o.root, cls>> ELSE @,
                       !.rcm = IF cls = "commit" THEN Junk(@) ELSE @])
   /\ UNCHANGED <<last, tc>>
 
@@ -154,7 +157,7 @@ RespondInvoice(n, r, alt) ==
   /\ LET o == objs[r] IN
      objs' = Append(objs, [o EXCEPT !.kind = "invoice", !.by = n, !.src = r,
                 !.ptamp = (alt # "none"),
-                !.rfl = IF alt = "field" THEN <<r, "alt">> ELSE @,
+                !.rfl = IF alt \in {"field", "bit"} THEN <<r, alt>> ELSE @,
                 !.rcm = IF alt = "commit" THEN Junk(@) ELSE @])
   /\ UNCHANGED <<last, tc>>
 
